@@ -43,6 +43,28 @@ type Snapshot struct {
 	Paths    []string       // parallel to Cursors: index path
 }
 
+// TouchBottomUp looks at the tree in an unusual order before anybody else does:
+// it finds the elements through Children() alone and then asks the deepest
+// ones first for their namespace nodes and attributes. What a cursor answers
+// must not depend on which of its relatives was asked before (lazily filled
+// lists are a legitimate implementation, if they are filled correctly).
+func TouchBottomUp(root store.Cursor) int {
+	var all []store.Cursor
+	work := []store.Cursor{root}
+	for len(work) > 0 {
+		c := work[len(work)-1]
+		work = work[:len(work)-1]
+		all = append(all, c)
+		work = append(work, c.Children()...)
+	}
+	n := 0
+	for i := len(all) - 1; i >= 0; i-- {
+		n += len(all[i].Namespaces()) + len(all[i].Attributes())
+		_ = all[i].Parent()
+	}
+	return n
+}
+
 func Snap(root store.Cursor) *Snapshot {
 	s := &Snapshot{}
 	seenPos := map[int]string{}
